@@ -23,27 +23,31 @@ Theorem C15_amd64_iface_stub : forall dx s,
 Proof. intros dx s. rewrite tie_iface_jump. exact (abs_jump_rdx_runs s dx). Qed.
 Print Assumptions C15_amd64_iface_stub.
 
-(* amd64 trampoline return: the form chosen is rel32 or absolute; whichever is chosen lands on [to] *)
+(* amd64 trampoline return: the destination is a CODE address; the form chosen is rel32 or JMP [RIP+0] with the
+   destination as an inline literal; whichever is chosen lands on [to] itself and changes no register *)
 Theorem C15_amd64_origin_jump : forall to s,
-  0 <= rip s -> rip s + 12 < 2 ^ 64 -> 0 <= to < 2 ^ 64 ->
+  0 <= rip s -> rip s + 14 < 2 ^ 64 -> 0 <= to < 2 ^ 64 ->
   code_at (mem s) (rip s) (Gen.JumpAmd64.jmpToOriginFunctionValue (rip s) to) ->
-  (Gen.JumpAmd64.relative (rip s) to = true /\
-     exists s', run 64 1 s = Some s' /\ rip s' = to /\ regs s' = regs s /\ mem s' = mem s) \/
-  (Gen.JumpAmd64.relative (rip s) to = false /\
-     exists s', run 64 2 s = Some s' /\ rip s' = memw 64 (mem s) to /\
-                regs s' = upd (regs s) RDX to /\ mem s' = mem s).
+  exists s', run 64 1 s = Some s' /\ rip s' = to /\ regs s' = regs s /\ mem s' = mem s.
 Proof.
-  intros to s Hr0 Hr1 Hto. rewrite tie_origin_jump, tie_relative.
+  intros to s Hr0 Hr1 Hto. rewrite tie_origin_jump.
   destruct (origin_jump_forms (rip s) to) as [[-> Hf]|[-> Hf]]; intros Hc.
-  - left. split; [exact Hf|]. apply rel_jump_runs; try assumption. lia.
-  - right. split; [exact Hf|]. apply abs_jump_rdx_runs; assumption.
+  - apply rel_jump_runs; try assumption. lia.
+  - apply abs_jump_rip_runs; assumption.
 Qed.
 Print Assumptions C15_amd64_origin_jump.
 
 Theorem C15_amd64_origin_jump_length : forall from to,
   length (Gen.JumpAmd64.jmpToOriginFunctionValue from to) = 5%nat \/
-  length (Gen.JumpAmd64.jmpToOriginFunctionValue from to) = 12%nat.
+  length (Gen.JumpAmd64.jmpToOriginFunctionValue from to) = 14%nat.
 Proof. intros. rewrite tie_origin_jump. apply origin_jump_length. Qed.
+
+(* the far form emitted before the repair F15b (the function-value form MOVABS RDX,to; JMP [RDX]) did NOT reach the
+   destination and overwrote the context register: kept as a refutation of the pre-repair encoder *)
+Theorem C15_amd64_origin_jump_pre_repair_refuted :
+  exists to s, rel_fits (rip s) to = false /\ code_at (mem s) (rip s) (origin_jump_pre_repair (rip s) to) /\
+    forall s', run 64 2 s = Some s' -> rip s' <> to /\ regs s' RDX <> regs s RDX.
+Proof. exact origin_jump_pre_repair_refuted. Qed.
 
 (* i386: MOV EDX,to; JMP [EDX] *)
 Theorem C15_i386_jump : forall from to s,
